@@ -134,16 +134,23 @@ Definition rmap {A B} (f : A -> B) (r : result A) : result B :=
 (* ------------------------------------------------------------------------------------------ *)
 (* the wrapper                                                                                 *)
 (* ------------------------------------------------------------------------------------------ *)
+(* call-by-value unfolding of the wrapper on a focus given by constructors: projections are
+   resolved as they are met, so the term stays small *)
+Ltac unfold_wrapper :=
+  cbv beta iota zeta delta [handle_focus apply_ast write_cpp fail add_extended_md current_ext set_found set_exe
+                            reset_f view_of fixed v_reset_on_failure v_reset_ns v_own_ext v_clear_found v_copy_methods
+                            f_mt f_ns f_counter f_shared f_exe e_backend e_jobs e_inject e_ext e_found e_methods].
+
 Ltac fin := cbn; repeat split; try reflexivity.
 
-Definition clean_exec (e : exec) : Prop := e_jobs e = [] /\ e_inject e = [] /\ e_ext e = Some [].
+Definition clean_exec (e : exec) : Prop := e_jobs e = [] /\ e_inject e = [] /\ e_ext e = Some [] /\ e_methods e = [].
 
 Section WrapperProofs.
   Variables query body pkg : Type.
   Variable raw : backend -> list (mkey * string).
   Variable extract : query -> result (list decl * body).
   Variable passes : body -> result body.
-  Variable finder : backend -> list spec -> body -> result body.
+  Variable finder : backend -> list string -> list spec -> body -> result body.
   Variable T : backend -> nat -> view -> body -> result pkg * nat.
 
   Notation hf := (handle_focus query body pkg raw extract passes finder T fixed).
@@ -161,18 +168,18 @@ Section WrapperProofs.
 
   (* ---- every Handle, whatever its outcome, ends in the default state ---- *)
   Lemma handle_focus_ends_clean : forall (f : focus) (dk : option (string * string)) (q : query),
+    e_methods (f_exe f) = [] ->
     let f' := fst (hf f dk q) in
     f_mt f' = defaults (e_backend (f_exe f)) /\ f_ns f' = [] /\ clean_exec (f_exe f') /\
     e_backend (f_exe f') = e_backend (f_exe f).
   Proof.
-    intros [mt ns n sh [b jobs inj ext fnd]] dk q. unfold clean_exec, defaults.
-    unfold handle_focus, apply_ast, write_cpp, fail, add_extended_md, current_ext, set_found, set_exe, reset_f, view_of.
-    destruct dk as [[k p]|]; destruct ext as [d|]; cbn [fixed v_reset_on_failure v_reset_ns v_own_ext v_clear_found f_exe e_ext f_mt f_ns f_counter f_shared e_backend e_jobs e_inject e_found];
+    intros [mt ns n sh [b jobs inj ext fnd mth]] dk q Hm. simpl in Hm. subst mth. unfold clean_exec, defaults.
+    destruct dk as [[k p]|]; destruct ext as [d|]; unfold_wrapper; cbn [fixed v_reset_on_failure v_reset_ns v_own_ext v_clear_found v_copy_methods f_exe e_ext f_mt f_ns f_counter f_shared e_backend e_jobs e_inject e_found e_methods];
       (destruct (extract q) as [[mds bd]|e0]; cbn; [|solve [fin]]);
       (match goal with |- context [process_metadata ?a ?b ?c ?d ?e] => destruct (process_metadata a b c d e) as [[mt' ns'] [specs|e1]] end; cbn; [|solve [fin]]);
       (destruct (passes bd) as [bd1|e2]; cbn; [|solve [fin]]);
       (destruct (callbacks_ok b specs); cbn; [|solve [fin]]);
-      (destruct (finder b specs bd1) as [bd2|e3]; cbn; [|solve [fin]]);
+      (match goal with |- context [finder ?a ?t ?c ?d] => destruct (finder a t c d) as [bd2|e3] end; cbn; [|solve [fin]]);
       (match goal with |- context [T ?a ?b ?c ?d] => destruct (T a b c d) as [[p0|e4] n'] end; solve [fin]).
   Qed.
 
@@ -223,7 +230,7 @@ Section WrapperProofs.
       set (e := nth k (g_execs s1) (blank b)).
       assert (He : clean_exec e /\ P (e_backend e)).
       { unfold e. apply (Forall_nth (fun e => clean_exec e /\ P (e_backend e))); assumption. }
-      pose proof (handle_focus_ends_clean (focus_of s1 e) dk q) as Hc.
+      pose proof (handle_focus_ends_clean (focus_of s1 e) dk q (proj2 (proj2 (proj2 (proj1 He))))) as Hc.
       destruct (hf (focus_of s1 e) dk q) as [f out] eqn:Hhf. cbn [fst] in *.
       destruct Hc as (Hfm & Hfn & Hfc & Hfb). simpl in Hfm, Hfb.
       unfold unfocus. repeat split; cbn [g_ns g_execs g_mt fst].
@@ -277,20 +284,19 @@ Section WrapperProofs.
     (* the outcome of one query is a function of what the registries and the executor's lists hold
        when it starts (not of the counter, of the shared dict, of earlier found metadata) *)
     Lemma handle_focus_obs : forall (mt : mtab) (ns : nstab) (n m : nat) (sh sh' : extd) (b : backend)
-        (jobs : list jblock) (inj : list spec) (d : extd) (fnd fnd' : list (string * string)) dk q,
+        (jobs : list jblock) (inj : list spec) (d : extd) (fnd fnd' : list (string * string)) (mth : list string) dk q,
       obs_norm (Some (snd (hf {| f_mt := mt; f_ns := ns; f_counter := n; f_shared := sh;
-                                 f_exe := {| e_backend := b; e_jobs := jobs; e_inject := inj; e_ext := Some d; e_found := fnd |} |} dk q)))
+                                 f_exe := {| e_backend := b; e_jobs := jobs; e_inject := inj; e_ext := Some d; e_found := fnd; e_methods := mth |} |} dk q)))
       = obs_norm (Some (snd (hf {| f_mt := mt; f_ns := ns; f_counter := m; f_shared := sh';
-                                   f_exe := {| e_backend := b; e_jobs := jobs; e_inject := inj; e_ext := Some d; e_found := fnd' |} |} dk q))).
+                                   f_exe := {| e_backend := b; e_jobs := jobs; e_inject := inj; e_ext := Some d; e_found := fnd'; e_methods := mth |} |} dk q))).
     Proof.
       intros. unfold obs_norm, option_map. f_equal.
-      unfold handle_focus, apply_ast, write_cpp, fail, add_extended_md, current_ext, set_found, set_exe, reset_f, view_of.
-      destruct dk as [[k p]|]; cbn [fixed v_reset_on_failure v_reset_ns v_own_ext v_clear_found f_exe e_ext f_mt f_ns f_counter f_shared e_backend e_jobs e_inject e_found];
+      destruct dk as [[k p]|]; unfold_wrapper; cbn [fixed v_reset_on_failure v_reset_ns v_own_ext v_clear_found v_copy_methods f_exe e_ext f_mt f_ns f_counter f_shared e_backend e_jobs e_inject e_found e_methods];
         (destruct (extract q) as [[mds bd]|e0]; cbn; [|reflexivity]);
         (match goal with |- context [process_metadata ?a ?b ?c ?d ?e] => destruct (process_metadata a b c d e) as [[mt' ns'] [specs|e1]] end; cbn; [|reflexivity]);
         (destruct (passes bd) as [bd1|e2]; cbn; [|reflexivity]);
         (destruct (callbacks_ok b specs); cbn; [|reflexivity]);
-        (destruct (finder b specs bd1) as [bd2|e3]; cbn; [|reflexivity]);
+        (match goal with |- context [finder ?a ?t ?c ?d] => destruct (finder a t c d) as [bd2|e3] end; cbn; [|reflexivity]);
         (match goal with |- context [T ?a n ?c ?d] =>
            pose proof (T_renames a n m c d) as HT;
            destruct (T a n c d) as [[p0|e4] n1]; destruct (T a m c d) as [[p1|e5] n2] end;
@@ -327,7 +333,7 @@ Section WrapperProofs.
       destruct (hf (focus_of s1 e) dk q) as [f out] eqn:Hhf. cbn [snd].
       replace out with (snd (hf (focus_of s1 e) dk q)) by (rewrite Hhf; reflexivity).
       unfold focus_of. rewrite Hmt', Hns.
-      destruct e as [eb ej ei ee ef]. destruct He as [(Hj & Hi & Hx) Hb]. simpl in Hj, Hi, Hx, Hb. subst.
+      destruct e as [eb ej ei ee ef em]. destruct He as [(Hj & Hi & Hx & Hm) Hb]. simpl in Hj, Hi, Hx, Hm, Hb. subst.
       unfold blank. apply handle_focus_obs.
     Qed.
   End Observation.
@@ -380,13 +386,18 @@ Definition h_found : list (op cquery) :=
 Definition h_cross : list (op cquery) := [Create CmsAod; Handle New Atlas None (q_ok [])].
 
 Definition no_reset_on_failure : variant :=
-  {| v_reset_on_failure := false; v_reset_ns := true; v_own_ext := true; v_clear_found := true |}.
+  {| v_reset_on_failure := false; v_reset_ns := true; v_own_ext := true; v_clear_found := true; v_copy_methods := true |}.
 Definition no_reset_ns : variant :=
-  {| v_reset_on_failure := true; v_reset_ns := false; v_own_ext := true; v_clear_found := true |}.
+  {| v_reset_on_failure := true; v_reset_ns := false; v_own_ext := true; v_clear_found := true; v_copy_methods := true |}.
 Definition no_own_ext : variant :=
-  {| v_reset_on_failure := true; v_reset_ns := true; v_own_ext := false; v_clear_found := true |}.
+  {| v_reset_on_failure := true; v_reset_ns := true; v_own_ext := false; v_clear_found := true; v_copy_methods := true |}.
 Definition no_clear_found : variant :=
-  {| v_reset_on_failure := true; v_reset_ns := true; v_own_ext := true; v_clear_found := false |}.
+  {| v_reset_on_failure := true; v_reset_ns := true; v_own_ext := true; v_clear_found := false; v_copy_methods := true |}.
+
+(* seeded regression: the executor's method table is extended in place instead of a copy *)
+Definition no_copy_methods : variant :=
+  {| v_reset_on_failure := true; v_reset_ns := true; v_own_ext := true; v_clear_found := true; v_copy_methods := false |}.
+Definition h_coll : list (op cquery) := [Handle New Atlas None (q_ok [DCollection Atlas "Jets"])].
 
 Ltac refute := let H := fresh "H" in intro H; vm_compute in H; discriminate H.
 
@@ -408,6 +419,11 @@ Lemma needed_own_ext : ~ independent_at no_own_ext h_docker New Atlas None q_doc
 Proof. refute. Qed.
 Lemma needed_clear_found : ~ independent_at no_clear_found h_found (Reuse 0) Atlas (Some ("docker", "image:1")) (q_ok []).
 Proof. refute. Qed.
+
+Lemma needed_copy_methods : ~ independent_at no_copy_methods h_coll (Reuse 0) Atlas None (q_ok []).
+Proof. refute. Qed.
+Lemma fixed_ok_coll : independent_at fixed h_coll (Reuse 0) Atlas None (q_ok []).
+Proof. vm_compute. reflexivity. Qed.
 
 (* the full statement (any mixture of backends) is false of the fixed wrapper *)
 Lemma fixed_cross_backend : ~ independent_at fixed h_cross (Reuse 0) CmsAod None (q_ok []).
